@@ -63,6 +63,8 @@ class Seg:
 
     def __iadd__(self, o):
         r = self + o
+        if not isinstance(self, BSeg):
+            return r  # bytes are immutable: += rebinds
         self.lo, self.hi = r.lo, r.hi
         return self
 
@@ -81,6 +83,18 @@ class Seg:
         raise symx.Unsupported("len(Seg) must go through the shim")
 
 
+class BSeg(Seg):
+    """a bytearray (mutable: += grows it in place); the plain Seg is an immutable bytes value"""
+
+    def __add__(self, o):
+        r = Seg.__add__(self, o)
+        return r if r is NotImplemented else BSeg(r.lo, r.hi)
+
+    def __getitem__(self, s):
+        r = Seg.__getitem__(self, s)
+        return BSeg(r.lo, r.hi)
+
+
 def s_len(x):
     if isinstance(x, Seg):
         return x._len()
@@ -93,7 +107,7 @@ def setup():
     import odc.geo.cog._mpu as mpu
 
     mpu.len = s_len
-    mpu.bytearray = Seg
+    mpu.bytearray = BSeg
     shims.instrument(mpu, names=["min", "max", "isinstance"], scan=False)
 
 
@@ -143,8 +157,9 @@ def all_trees(lo, hi):
     return out
 
 
-def h_scenario(parts, header, footer, wpc, trees, writer=True, spill="sym", min_part=1):
-    """parts: per sub-stream, list of chunks-per-partition; trees: per sub-stream merge tree"""
+def h_scenario(parts, header, footer, wpc, trees, writer=True, spill="sym", min_part=1, buf="bytes"):
+    """parts: per sub-stream, list of chunks-per-partition; trees: per sub-stream merge tree;
+    buf: the caller hands its chunks over as bytes or as bytearray objects (which it keeps)"""
     import odc.geo.cog._mpu as mpu
 
     minw = Int("min_write_sz", 1)
@@ -159,12 +174,14 @@ def h_scenario(parts, header, footer, wpc, trees, writer=True, spill="sym", min_
     ftr = Int("ftr_sz", 1) if footer else 0
     conc = symx.concrete_mode()
 
-    def mk_data(lo, n, tag):
+    def mk_data(lo, n, tag, kind="bytes"):
         if conc:
-            return bytes(((tag * 37 + i) % 251) for i in range(n))
-        return Seg(lo, lo + n)
+            b = bytes(((tag * 37 + i) % 251) for i in range(n))
+            return bytearray(b) if kind == "bytearray" else b
+        return BSeg(lo, lo + n) if kind == "bytearray" else Seg(lo, lo + n)
 
     cur = hdr
+    originals = []
     bags = []
     expected_obs = []
     expected_stream = []
@@ -175,10 +192,11 @@ def h_scenario(parts, header, footer, wpc, trees, writer=True, spill="sym", min_
             cc = []
             for k in range(nch):
                 sz = Int(f"sz_{si}_{pi}_{k}", 0)
-                d = mk_data(cur, sz, cid + 1)
+                d = mk_data(cur, sz, cid + 1, buf)
                 cc.append((d, ("chunk", cid)))
                 expected_obs.append((sz, ("chunk", cid)))
                 expected_stream.append(d)
+                originals.append((d, bytes(d) if conc else (d.lo, d.hi)))
                 cur = cur + sz
                 cid += 1
             plist.append(cc)
@@ -267,8 +285,12 @@ def h_scenario(parts, header, footer, wpc, trees, writer=True, spill="sym", min_
         return isinstance(x, (mpu.MPUChunk, FakeBag)) or (isinstance(x, (list, tuple)) and any(_from_data(y) for y in x))
 
     prove("M8_task_key_depends_on_the_data", any(_from_data(x) for a in tok_args[-1:] for x in a))
+    # the caller keeps its chunk objects (a reused buffer, one bag feeding two writes): they are only read
     if conc:
-        want = (mk_data(0, hdr, 0) if header else b"") + b"".join(expected_stream) + (mk_data(data_end, ftr, 250) if footer else b"")
+        prove("M9_callers_chunks_left_as_they_were", all(bytes(d) == o for d, o in originals))
+        want = (mk_data(0, hdr, 0) if header else b"") + b"".join(o for _, o in originals) + (mk_data(data_end, ftr, 250) if footer else b"")
+    else:
+        prove("M9_callers_chunks_left_as_they_were", And(*[And(d.lo == o[0], d.hi == o[1]) for d, o in originals]) if originals else True)
 
     if not writer:
         # no writer: the root chunk holds the whole stream, nothing was written
@@ -444,6 +466,13 @@ def _scn_params(tier, rng):
         out.append(dict(parts=[[1, 1], [1]], header=True, footer=True, wpc=1, trees=[[0, 1], 0]))
         out.append(dict(parts=[[2, 1], [1]], header=False, footer=False, wpc=2, trees=[[0, 1], 0]))
         out.append(dict(parts=[[1, 1, 1], [1, 1]], header=False, footer=True, wpc=1, trees=[[[0, 1], 2], [0, 1]]))
+        # the caller's chunks are bytearray objects (mutable): nothing may be appended to them
+        out.append(dict(parts=[[2, 1]], header=True, footer=False, wpc=1, trees=[[0, 1]], buf="bytearray"))
+        out.append(dict(parts=[[2], [2]], header=False, footer=True, wpc=2, trees=[0, 0], buf="bytearray"))
+        # a short leading sub-stream in front of a longer one, several writes per chunk (right-nested merges)
+        for hdr_ in (True, False):
+            out.append(dict(parts=[[1], [1, 1]], header=hdr_, footer=False, wpc=2, trees=[0, [0, 1]]))
+            out.append(dict(parts=[[1], [2, 1]], header=hdr_, footer=True, wpc=3, trees=[0, [0, 1]]))
         return out
     out = shapes(3, 2, (1, 2, 3)) + _empty_partition_shapes()
     out += [dict(s, spill="0") for s in shapes(2, 2, (1,), two_substreams=False)]
@@ -452,6 +481,8 @@ def _scn_params(tier, rng):
     p4 = [s for s in shapes(4, 1, (1, 2), two_substreams=False) if len(s["parts"][0]) == 4]
     rng.shuffle(p4)
     out += p4[:24]
+    out += [dict(s, buf="bytearray") for s in shapes(2, 2, (1, 2))[::3]]
+    out += [dict(parts=[[1], [c, 1]], header=h_, footer=f_, wpc=w_, trees=[0, [0, 1]]) for c in (1, 2) for h_ in (True, False) for f_ in (True, False) for w_ in (2, 3)]
     return out
 
 
